@@ -20,13 +20,13 @@ def parseItems (s : String) : Option (List (Int × Int)) :=
 /-- the comparator of the stream: `compare.Ordered` on the keys (the ids are payload: items with equal keys compare Equal) -/
 def cmpKey (a b : Int × Int) : Int := cmpOrdered a.1 b.1
 
+/-- no element is `Smaller` than one before it -/
+def sortedB : List (Int × Int) → Bool
+  | [] => true
+  | a :: rest => rest.all (fun b => decide (cmpKey b a ≠ -1)) && sortedB rest
+
 /-- the two clauses of `SortSliceSpec` for one input and the output of the real `compare.Sort`, decided -/
-def specHolds (input output : List (Int × Int)) : Bool :=
-  output.isPerm input &&
-    (List.range output.length).all (fun i => (List.range output.length).all (fun k =>
-      !(decide (i < k)) || (match output[i]?, output[k]? with
-        | some a, some b => decide (cmpKey b a ≠ -1)
-        | _, _ => true)))
+def specHolds (input output : List (Int × Int)) : Bool := output.isPerm input && sortedB output
 
 def handle (fields : List String) : Option String :=
   match fields with
